@@ -242,10 +242,17 @@ def r08_5(run, model):
                 declared = any(S.callee_name(c) in TYPE_SOURCES for x in exprs for c in S.calls(x))
                 tables = sorted({S.callee_name(c) for x in exprs for c in S.calls(x) if (S.callee_name(c) or "").startswith(("get_func", "lookup", "get_fn"))})
                 n += 1
-                ok = (from_children or declared) and not tables
+                # the type the node had before conversion is stale wherever a child was converted: for the forms whose type is a function
+                # of their children it must not flow into the new type on any branch (a conditional rebuild keeps it for nested shapes)
+                pat_ty = {b for b in S.pat_bindings(alt)} & {"ty"}
+                stale = variant in ("ETuple", "ELet") and bool(pat_ty) and any(
+                    x["k"] == "Path" and x.get("segs") == ["ty"] for y in exprs for x in S.walk(y)
+                    if not (y is e and e["k"] == "Path"))
+                ok = (from_children or declared) and not tables and not stale
                 run.ob("R08.5", f"transform_expr|{variant} type from converted children", ok, site(LIFT, st["sp"]),
                        f"new type of {variant}: " + ("children's get_ty()" if from_children else ("declared field type" if declared else "no converted child consulted")) +
-                       (f"; name-keyed tables consulted: {tables}" if tables else ""),
+                       (f"; name-keyed tables consulted: {tables}" if tables else "") +
+                       ("; the pre-conversion type is kept on some branch" if stale else ""),
                        witness="let mk = make_adder; let add3 = mk(3); add3(10): the call through the alias keeps the unconverted function type, add3 is no longer a closure struct and is called as a bare func")
     run.floor("rebuilt nodes with a recomputed type in transform_expr", n, 4)
 
